@@ -75,6 +75,21 @@ def gen_encoder_op(rng):
     return "json connect name=%s host=%s dh=%s ver=%s lang=%s dk=%s" % tuple(hx(rbytes(rng)) for _ in range(6))
 
 
+def gen_labels(rng):
+    """label lists as the agent sends them: valid labels, labels with an empty type or value at any position, repeated types"""
+    k = rng.random()
+    if k < 0.25:
+        return "-"
+    if k < 0.4:
+        return rng.choice(["env:prod", "team:a1"])
+    items = []
+    for _ in range(rng.randint(1, 4)):
+        ty = rng.choice(["env", "team", "zone", "a", "b", "B", "a1", ""])
+        v = rng.choice(["prod", "x", "y", "1", "", "dev"])
+        items.append("%s:%s" % (ty, v))
+    return ";".join(items)
+
+
 def gen_op(rng):
     if rng.random() < 0.2:
         return gen_encoder_op(rng)
@@ -100,7 +115,7 @@ def gen_op(rng):
     if k < 0.85:
         n = rng.choice([0, 1, 2, 3, 5])
         evs = [rng.choice([frag(rng), b"{}", b"[]", b"1", b"12", b"123"]) for _ in range(n)]
-        return "json log %s %s" % (rng.choice(["-", "-", "env:prod", "team:a1"]), ",".join(hx(e) for e in evs) or "-")
+        return "json log %s %s" % (gen_labels(rng), ",".join(hx(e) for e in evs) or "-")
     if k < 0.92:
         return "json pkgs %s" % hx(rng.choice([b'[["a","1.0",{}]]', b"[]", b'[["x\\"y","2",{}],["b","3",{}]]']))
     pk = {}
@@ -119,7 +134,20 @@ def plan(ctx):
             ops.append("json str " + bytes([b0, b1, 0x80, 0x80, 0x41]).hex())
             ops.append("json str " + bytes([b0, b1, 0xbf]).hex())
     seqs = [("json%d" % i, ops[i:i + 250]) for i in range(0, len(ops), 250)]
-    return [("corpus", corpus(ID)), ("gen", seqs)]
+    # payloads as the real Processor sends them after histories (carried-over and re-reported data): every body must be JSON
+    from checks import gen_proc
+    m = 30 if tier == "quick" else 1500
+    hist = [("pk%d" % i, gen_proc.package_history(rng)) for i in range(m)]
+    hist += [("ph%d" % i, gen_proc.history(rng, profile="nofatal")) for i in range(m // 2)]
+    return [("corpus", corpus(ID)), ("gen", seqs), ("proc", hist)]
+
+
+def run(ctx, bname, seqs):
+    if seqs and seqs[0][1] and seqs[0][1][0].startswith("proc "):
+        from checks import proc_common as pc
+        return pc.run_proc(ctx, bname, seqs, ("C08",))
+    from lib import vlib
+    return vlib.run_sequences(seqs, ctx["work"], tag=bname)
 
 
 def nontrivial(r):
@@ -129,7 +157,7 @@ def nontrivial(r):
 def tags(r):
     t = set()
     for o in r.ops:
-        t.add("op:" + o.split()[1])
+        t.add("op:" + " ".join(o.split()[:2]))
     for il in r.impl:
         if il == "error":
             t.add("error(non-finite)")
